@@ -22,7 +22,8 @@ var values = []string{"1", "x", "x y", "linux", "v:1", " lead", "é", "\xff", "x
 var names = []string{"X", "Foo/a=1-8", "", "é", "\xff\xfe", "Unit", "X:", "a=b"}
 var units = []string{"ns/op", "MB/s", "B/op", "allocs/op", "ns", "MB", "sec/op", "x-ns/op", "ns/ns", "MBns", "é/op", "\xff", "1", "="}
 var nums = []string{"1", "0", "-0", "5", "100", "1.5", "1e3", "-1e-3", "+Inf", "-Inf", "NaN", "inf", "1e999", "0x1p-2", "1_000", "x", "1x", "",
-	"9223372036854775807", "9223372036854775808", "-9223372036854775808", "99999999999999999999", "99999999999999999999x", "+5", "-", "+", "1.", ".5", "１"}
+	"9223372036854775807", "9223372036854775808", "-9223372036854775808", "99999999999999999999", "99999999999999999999x", "+5", "-", "+", "1.", ".5", "１",
+	"1:", ":", "5:3", "12:", "/", "1/", "9;", "7:ns"}
 var unitKeys = []string{"better=higher", "better=lower", "assume=exact", "assume=nothing", "k=", "=v", "novalue", "k=v=w", "é=é", "better=HIGHER"}
 var foreign = []string{"", "PASS", "ok  \tgolang.org/x/perf\t0.1s", "--- FAIL: x", "goos linux", "Key: v", "key :v", "key:v", ":v", "key", "Unitx ns/op a=b",
 	"unit ns/op a=b", "benchmarkX 1 1 ns/op", " BenchmarkX 1 1 ns/op", "=== RUN   BenchmarkX", "\xff\xfe", "U", "Un it"}
